@@ -3,17 +3,20 @@
   representation for every finite normal value, and byte-order helpers are exact involutions".
   Property theorems only (model: SfModel/Ieee.lean, helpers: SfProofs/Ieee.lean).
 
-  * readers  : every normal pattern is read back as itself (`ieee_read_native_*`); what the C computes for the other
-               classes is stated exactly: ±0 ↦ +0, binary32 subnormals ↦ 1.T (a value in [1,2)), binary64 subnormals
-               ↦ 2^-1023·1.T rounded, Inf ↦ Inf, NaN ↦ Inf of the NaN's sign.
-  * writers  : the full statement `ieee_write_*_full` is FALSE of the code (`ieee_write_*_fails`: the smallest normal
-               value is written as four / eight zero bytes, known finding KF-C20-ieee-flush); it holds outside the
-               class `flushes` = `fabs (in) < 1e-30` (`ieee_write_*_partial`).
-  * byte order: `ENDSWAP_16/32/64` are involutions and reverse the byte string; `psf_put_be*` / `psf_get_*` are
-               mutually inverse and are the big- and little-endian two's-complement layouts.
+  * readers  : every FINITE pattern (normal, subnormal, ±0) is read back as itself (`ieee_read_finite_*`, C20's
+               `ieee_read_native_*` is the normal case); Inf ↦ Inf, NaN ↦ Inf of the NaN's sign.  The readers before the two
+               `fix:` commits are kept as `…Old` with `read_zero_old_rule`, `f32/f64_read_subnormal_old_rule`.
+  * writers  : every normal value is written as its own bit string (`ieee_write_native_*`, full strength).  The rule before the
+               `fix:` commit (`fabs (in) < 1e-30`) is kept: `ieee_write_*_old_rule_fails`, `ieee_write_old_rule_partial`,
+               `flushes_old_rule_iff_*` (the class in bit terms).  Zeros and subnormals are written as +0 (`ieee_write_tiny`):
+               C01's class `KF.ieeeTiny` (`replace_roundtrip_fails` / `replace_roundtrip_partial`).
+  * buffers  : `replace_write_native_*`, `replace_read_native_*`: the array paths equal the native paths on normal values.
+  * byte order: `ENDSWAP_16/32/64` are involutions and reverse the byte string (Nat and BitVec forms, proved equal);
+               `psf_put_be*` / `psf_get_*` are mutually inverse in both directions for 16, 32 and 64 bits.
 -/
 import SfModel.Ieee
 import SfProofs.Ieee
+import SfProofs.Codec
 namespace Sf.C20Ieee
 open Sf Sf.Float Sf.Ieee
 
@@ -60,76 +63,78 @@ theorem spec_encode_fields (f : Fmt) (hf : f.Std) (b : Nat) (hb : b < 2 ^ f.widt
 example : Spec.fields f32 0x3F800000 = ⟨false, 127, 0⟩ ∧ Spec.value f32 ⟨false, 127, 0⟩ = .fin ⟨false, 2 ^ 23, -23⟩ ∧
     Spec.isNormal f32 0x3F800000 = true ∧ Spec.bytesBE f32 0x3F800000 = [0x3F, 0x80, 0, 0] := by decide
 
-/-! ## readers -/
+/-! ## readers (current rule: after the `fix:` commits "decoded subnormal numbers with a hidden bit" and
+    "returned +0.0 for the bit pattern of -0.0") -/
 
-/-- binary32: every normal pattern, in either byte order, is read back as itself -/
-theorem ieee_read_native_f32 (b : Nat) (hb : b < 2 ^ 32) (hn : Spec.isNormal f32 b = true) :
+/-- binary32: every FINITE pattern — normal, subnormal, +0, −0 — in either byte order, is read back as itself -/
+theorem ieee_read_finite_f32 (b : Nat) (hb : b < 2 ^ 32) (hfin : f32.isFinite b = true) :
     f32BeRead (Spec.bytesBE f32 b) = b ∧ f32LeRead (Spec.bytesLE f32 b) = b := by
-  rw [spec_isNormal_iff f32 f32_std] at hn
-  have hne : f32.expo b ≠ f32.emax ∧ f32.expo b ≠ 0 := by simpa [Fmt.isNormal] using hn
-  have hfin : f32.isFinite b = true := by simp [Fmt.isFinite, hne.1]
   have core := f32ReadCore_bytes b hb
-  have h0 : ¬ (f32.expo b = 0 ∧ f32.frac b = 0) := fun h => hne.2 h.1
-  rw [if_neg h0, if_pos hne.2] at core
-  have hd : f32.toDy b = ⟨f32.sign b, 2 ^ 23 + f32.frac b, (f32.expo b : Int) - 127 - 23⟩ := by
-    unfold Fmt.toDy; simp only [hne.2, if_false]
-    congr 1
-    have hq : f32.qmin = -149 := by decide
-    rw [hq]; omega
-  rw [← hd, ofDy_toDy f32 f32_std b hb hfin] at core
-  rw [bytesBE_f32, bytesLE_f32]
-  exact ⟨core, core⟩
-
-/-- binary64: every normal pattern, in either byte order, is read back as itself -/
-theorem ieee_read_native_f64 (b : Nat) (hb : b < 2 ^ 64) (hn : Spec.isNormal f64 b = true) :
-    f64BeRead (Spec.bytesBE f64 b) = b ∧ f64LeRead (Spec.bytesLE f64 b) = b := by
-  rw [spec_isNormal_iff f64 f64_std] at hn
-  have hne : f64.expo b ≠ f64.emax ∧ f64.expo b ≠ 0 := by simpa [Fmt.isNormal] using hn
-  have hfin : f64.isFinite b = true := by simp [Fmt.isFinite, hne.1]
-  have core := f64ReadCore_bytes b hb
-  have h0 : ¬ (f64.expo b = 0 ∧ f64.frac b = 0) := fun h => hne.2 h.1
-  rw [if_neg h0] at core
-  have hd : f64.toDy b = ⟨f64.sign b, 2 ^ 52 + f64.frac b, (f64.expo b : Int) - 1023 - 52⟩ := by
-    unfold Fmt.toDy; simp only [hne.2, if_false]
-    congr 1
-    have hq : f64.qmin = -1074 := by decide
-    rw [hq]; omega
-  rw [← hd, ofDy_toDy f64 f64_std b hb hfin] at core
-  rw [bytesBE_f64, bytesLE_f64]
-  exact ⟨core, core⟩
-
-/-- non-vacuity: the hypotheses are met by ordinary values and the readers are not constant -/
-example : Spec.isNormal f32 0xC2F6E979 = true ∧ f32LeRead [0x79, 0xE9, 0xF6, 0xC2] = 0xC2F6E979 ∧
-    f32BeRead [0x3F, 0x80, 0, 0] = 0x3F800000 ∧ f64BeRead [0x40, 0x09, 0x21, 0xFB, 0x54, 0x44, 0x2D, 0x18] = 0x400921FB54442D18 := by
-  decide
-
-/-! ### what the readers do outside the normal numbers (not covered by the property statement; stated so that
-    nothing about the code is left implicit) -/
-
-/-- +0 and −0 are both read as +0 (`return 0.0` before the sign is applied) -/
-theorem f32_read_zero : f32BeRead (Spec.bytesBE f32 0) = 0 ∧ f32BeRead (Spec.bytesBE f32 0x80000000) = 0 ∧
-    f32LeRead (Spec.bytesLE f32 0x80000000) = 0 ∧
-    f64BeRead (Spec.bytesBE f64 0x8000000000000000) = 0 ∧ f64LeRead (Spec.bytesLE f64 0x8000000000000000) = 0 := by decide
-
-/-- a binary32 subnormal (E = 0, T ≠ 0) is read as the NORMAL number with exponent field 127 and the same T, i.e. as
-    1.T ∈ [1, 2) instead of T · 2^-149: `exponent = exponent ? exponent - 127 : 0` after `mantissa |= 0x800000` -/
-theorem f32_read_subnormal (b : Nat) (hb : b < 2 ^ 32) (hE : f32.expo b = 0) (hT : f32.frac b ≠ 0) :
-    f32BeRead (Spec.bytesBE f32 b) = f32.sgnBit (f32.sign b) + 127 * 2 ^ 23 + f32.frac b ∧
-    f32LeRead (Spec.bytesLE f32 b) = f32.sgnBit (f32.sign b) + 127 * 2 ^ 23 + f32.frac b := by
-  have core := f32ReadCore_bytes b hb
-  have h0 : ¬ (f32.expo b = 0 ∧ f32.frac b = 0) := fun h => hT h.2
-  rw [if_neg h0, if_neg (by simpa using hE)] at core
-  have hfr : f32.frac b < 2 ^ 23 := by simp [Fmt.frac, f32]; omega
   have hq : f32.qmin = -149 := by decide
-  have := ofDy_normalised f32 (f32.sign b) 127 (f32.frac b) (by omega) hfr
-  rw [show f32.mbits = 23 from rfl] at this
-  have e1 : ((127 : Nat) : Int) - 1 + f32.qmin = 0 - 23 := by rw [hq]; omega
-  rw [e1] at this
-  rw [this] at core
-  have e2 : ¬ (127 ≥ f32.emax) := by decide
-  rw [if_neg e2] at core
+  have key : f32ReadCore (b / 16777216 % 256) (b / 65536 % 256) (b / 256 % 256) (b % 256) = b := by
+    rw [core]
+    by_cases h0 : f32.expo b = 0 ∧ f32.frac b = 0
+    · rw [if_pos h0]
+      obtain ⟨hdec, _, _⟩ := pattern_decomp f32 f32_std b hb
+      rw [h0.1, h0.2] at hdec; omega
+    · rw [if_neg h0]
+      by_cases he : f32.expo b = 0
+      · rw [if_neg (by simpa using he)]
+        have hd : f32.toDy b = ⟨f32.sign b, f32.frac b, -149⟩ := by rw [toDy_subnormal f32 b he, hq]
+        rw [← hd, ofDy_toDy f32 f32_std b hb hfin]
+      · rw [if_pos he]
+        have hd : f32.toDy b = ⟨f32.sign b, 2 ^ 23 + f32.frac b, (f32.expo b : Int) - 127 - 23⟩ := by
+          rw [toDy_normal f32 b he]; congr 1; rw [hq]; omega
+        rw [← hd, ofDy_toDy f32 f32_std b hb hfin]
   rw [bytesBE_f32, bytesLE_f32]
-  exact ⟨core, core⟩
+  exact ⟨key, key⟩
+
+/-- binary64: every finite pattern, in either byte order, is read back as itself -/
+theorem ieee_read_finite_f64 (b : Nat) (hb : b < 2 ^ 64) (hfin : f64.isFinite b = true) :
+    f64BeRead (Spec.bytesBE f64 b) = b ∧ f64LeRead (Spec.bytesLE f64 b) = b := by
+  have core := f64ReadCore_bytes b hb
+  have hq : f64.qmin = -1074 := by decide
+  have key : f64ReadCore (b / 72057594037927936 % 256) (b / 281474976710656 % 256) (b / 1099511627776 % 256)
+        (b / 4294967296 % 256) (b / 16777216 % 256) (b / 65536 % 256) (b / 256 % 256) (b % 256) = b := by
+    rw [core]
+    by_cases h0 : f64.expo b = 0 ∧ f64.frac b = 0
+    · rw [if_pos h0]
+      obtain ⟨hdec, _, _⟩ := pattern_decomp f64 f64_std b hb
+      rw [h0.1, h0.2] at hdec; omega
+    · rw [if_neg h0]
+      by_cases he : f64.expo b = 0
+      · rw [if_neg (by simpa using he)]
+        have hd : f64.toDy b = ⟨f64.sign b, f64.frac b, -1074⟩ := by rw [toDy_subnormal f64 b he, hq]
+        rw [← hd, ofDy_toDy f64 f64_std b hb hfin]
+      · rw [if_pos he]
+        have hd : f64.toDy b = ⟨f64.sign b, 2 ^ 52 + f64.frac b, (f64.expo b : Int) - 1023 - 52⟩ := by
+          rw [toDy_normal f64 b he]; congr 1; rw [hq]; omega
+        rw [← hd, ofDy_toDy f64 f64_std b hb hfin]
+  rw [bytesBE_f64, bytesLE_f64]
+  exact ⟨key, key⟩
+
+theorem finite_of_spec_normal (f : Fmt) (hf : f.Std) (b : Nat) (hn : Spec.isNormal f b = true) :
+    f.isNormal b = true ∧ f.isFinite b = true := by
+  rw [spec_isNormal_iff f hf] at hn
+  have hne : f.expo b ≠ f.emax ∧ f.expo b ≠ 0 := by simpa [Fmt.isNormal] using hn
+  exact ⟨hn, by simp [Fmt.isFinite, hne.1]⟩
+
+/-- the C20 statement for the readers: every finite normal pattern is read back as itself -/
+theorem ieee_read_native_f32 (b : Nat) (hb : b < 2 ^ 32) (hn : Spec.isNormal f32 b = true) :
+    f32BeRead (Spec.bytesBE f32 b) = b ∧ f32LeRead (Spec.bytesLE f32 b) = b :=
+  ieee_read_finite_f32 b hb (finite_of_spec_normal f32 f32_std b hn).2
+theorem ieee_read_native_f64 (b : Nat) (hb : b < 2 ^ 64) (hn : Spec.isNormal f64 b = true) :
+    f64BeRead (Spec.bytesBE f64 b) = b ∧ f64LeRead (Spec.bytesLE f64 b) = b :=
+  ieee_read_finite_f64 b hb (finite_of_spec_normal f64 f64_std b hn).2
+
+/-- non-vacuity: the hypotheses are met by ordinary values, by subnormals and by −0, and the readers are not constant -/
+example : Spec.isNormal f32 0xC2F6E979 = true ∧ f32LeRead [0x79, 0xE9, 0xF6, 0xC2] = 0xC2F6E979 ∧
+    f32BeRead [0x3F, 0x80, 0, 0] = 0x3F800000 ∧ f64BeRead [0x40, 0x09, 0x21, 0xFB, 0x54, 0x44, 0x2D, 0x18] = 0x400921FB54442D18 ∧
+    f32.isFinite 1 = true ∧ f32LeRead (Spec.bytesLE f32 1) = 1 ∧ f32BeRead (Spec.bytesBE f32 0x80000000) = 0x80000000 ∧
+    f64LeRead (Spec.bytesLE f64 0x800FFFFFFFFFFFFF) = 0x800FFFFFFFFFFFFF := by
+  decide +kernel
+
+/-! ### outside the finite values: exponent field all ones (unchanged by the repairs; outside every property statement) -/
 
 /-- exponent field 255: `pow (2.0, 128)` overflows binary32, so Inf is read as Inf and every NaN as the Inf of its sign -/
 theorem f32_read_inf_nan (b : Nat) (hb : b < 2 ^ 32) (hE : f32.expo b = 255) :
@@ -152,23 +157,12 @@ theorem f32_read_inf_nan (b : Nat) (hb : b < 2 ^ 32) (hE : f32.expo b = 255) :
   rw [bytesBE_f32, bytesLE_f32]
   exact ⟨core, core⟩
 
-/-- a binary64 subnormal is read as (2^52 + T) · 2^-1075 rounded to binary64 — about 2^-1023, not T · 2^-1074
-    (there is no special case for the exponent field 0 at all) -/
-theorem f64_read_subnormal (b : Nat) (hb : b < 2 ^ 64) (hE : f64.expo b = 0) (hT : f64.frac b ≠ 0) :
-    f64BeRead (Spec.bytesBE f64 b) = f64.ofDy ⟨f64.sign b, 2 ^ 52 + f64.frac b, -1075⟩ ∧
-    f64LeRead (Spec.bytesLE f64 b) = f64.ofDy ⟨f64.sign b, 2 ^ 52 + f64.frac b, -1075⟩ := by
-  have core := f64ReadCore_bytes b hb
-  have h0 : ¬ (f64.expo b = 0 ∧ f64.frac b = 0) := fun h => hT h.2
-  rw [if_neg h0, hE] at core
-  rw [bytesBE_f64, bytesLE_f64]
-  exact ⟨core, core⟩
-
 theorem f64_read_inf_nan (b : Nat) (hb : b < 2 ^ 64) (hE : f64.expo b = 2047) :
     f64BeRead (Spec.bytesBE f64 b) = f64.sgnBit (f64.sign b) + 2047 * 2 ^ 52 ∧
     f64LeRead (Spec.bytesLE f64 b) = f64.sgnBit (f64.sign b) + 2047 * 2 ^ 52 := by
   have core := f64ReadCore_bytes b hb
   have h0 : ¬ (f64.expo b = 0 ∧ f64.frac b = 0) := fun h => by omega
-  rw [if_neg h0] at core
+  rw [if_neg h0, if_pos (by omega)] at core
   have hfr : f64.frac b < 2 ^ 52 := by simp [Fmt.frac, f64]; omega
   have hq : f64.qmin = -1074 := by decide
   have := ofDy_normalised f64 (f64.sign b) 2047 (f64.frac b) (by omega) hfr
@@ -183,139 +177,301 @@ theorem f64_read_inf_nan (b : Nat) (hb : b < 2 ^ 64) (hE : f64.expo b = 2047) :
   rw [bytesBE_f64, bytesLE_f64]
   exact ⟨core, core⟩
 
-/-- witnesses: the smallest binary32 subnormal is read as 1 + 2^-23, the largest as 2 − 2^-23; the smallest binary64
-    subnormal as 2^-1023 (pattern 0x0008000000000000); a NaN as +Inf -/
-example : f32LeRead (Spec.bytesLE f32 1) = 0x3F800001 ∧ f32BeRead (Spec.bytesBE f32 0x007FFFFF) = 0x3FFFFFFF ∧
-    f64LeRead (Spec.bytesLE f64 1) = 0x0008000000000000 ∧ f32BeRead (Spec.bytesBE f32 0x7FC00000) = 0x7F800000 ∧
-    f32.expo 1 = 0 ∧ f32.frac 1 ≠ 0 ∧ f32.expo 0x7FC00000 = 255 ∧ f64.expo 1 = 0 ∧ f64.expo 0xFFF8000000000000 = 2047 := by decide
+example : f32BeRead (Spec.bytesBE f32 0x7FC00000) = 0x7F800000 ∧ f32.expo 0x7FC00000 = 255 ∧ f64.expo 0xFFF8000000000000 = 2047 := by
+  decide +kernel
 
-/-! ## writers -/
+/-! ### the readers before the repairs (`f32BeReadOld` &c.) -/
 
-/-- the property as stated: every finite normal value is serialised to its own bit string -/
-def ieee_write_f32_full : Prop :=
-  ∀ b, b < 2 ^ 32 → Spec.isNormal f32 b = true → f32BeWrite b = Spec.bytesBE f32 b ∧ f32LeWrite b = Spec.bytesLE f32 b
-def ieee_write_f64_full : Prop :=
-  ∀ b, b < 2 ^ 64 → Spec.isNormal f64 b = true → f64BeWrite b = Spec.bytesBE f64 b ∧ f64LeWrite b = Spec.bytesLE f64 b
+/-- old rule: +0 and −0 were both read as +0 (`return 0.0` before the sign is applied) -/
+theorem read_zero_old_rule : f32BeReadOld (Spec.bytesBE f32 0x80000000) = 0 ∧ f32LeReadOld (Spec.bytesLE f32 0x80000000) = 0 ∧
+    f64BeReadOld (Spec.bytesBE f64 0x8000000000000000) = 0 ∧ f64LeReadOld (Spec.bytesLE f64 0x8000000000000000) = 0 := by
+  decide +kernel
 
-/-- … is false of the code: the smallest normal binary32 value 2^-126 is written as four zero bytes -/
-theorem ieee_write_f32_fails : ¬ ieee_write_f32_full := by
+/-- old rule: a binary32 subnormal (E = 0, T ≠ 0) was read as the NORMAL number with exponent field 127 and the same T,
+    i.e. as 1.T ∈ [1, 2) instead of T · 2^-149 (`mantissa |= 0x800000 ; exponent = exponent ? exponent - 127 : 0`) -/
+theorem f32_read_subnormal_old_rule (b : Nat) (hb : b < 2 ^ 32) (hE : f32.expo b = 0) (hT : f32.frac b ≠ 0) :
+    f32BeReadOld (Spec.bytesBE f32 b) = f32.sgnBit (f32.sign b) + 127 * 2 ^ 23 + f32.frac b ∧
+    f32LeReadOld (Spec.bytesLE f32 b) = f32.sgnBit (f32.sign b) + 127 * 2 ^ 23 + f32.frac b := by
+  have core := f32ReadCoreOld_bytes b hb
+  have h0 : ¬ (f32.expo b = 0 ∧ f32.frac b = 0) := fun h => hT h.2
+  rw [if_neg h0, if_neg (by simpa using hE)] at core
+  have hfr : f32.frac b < 2 ^ 23 := by simp [Fmt.frac, f32]; omega
+  have hq : f32.qmin = -149 := by decide
+  have := ofDy_normalised f32 (f32.sign b) 127 (f32.frac b) (by omega) hfr
+  rw [show f32.mbits = 23 from rfl] at this
+  have e1 : ((127 : Nat) : Int) - 1 + f32.qmin = 0 - 23 := by rw [hq]; omega
+  rw [e1] at this
+  rw [this] at core
+  have e2 : ¬ (127 ≥ f32.emax) := by decide
+  rw [if_neg e2] at core
+  rw [bytesBE_f32, bytesLE_f32]
+  exact ⟨core, core⟩
+
+/-- old rule: a binary64 subnormal was read as (2^52 + T) · 2^-1075 rounded to binary64 — about 2^-1023, not T · 2^-1074 -/
+theorem f64_read_subnormal_old_rule (b : Nat) (hb : b < 2 ^ 64) (hE : f64.expo b = 0) (hT : f64.frac b ≠ 0) :
+    f64BeReadOld (Spec.bytesBE f64 b) = f64.ofDy ⟨f64.sign b, 2 ^ 52 + f64.frac b, -1075⟩ ∧
+    f64LeReadOld (Spec.bytesLE f64 b) = f64.ofDy ⟨f64.sign b, 2 ^ 52 + f64.frac b, -1075⟩ := by
+  have core := f64ReadCoreOld_bytes b hb
+  have h0 : ¬ (f64.expo b = 0 ∧ f64.frac b = 0) := fun h => hT h.2
+  rw [if_neg h0, hE] at core
+  rw [bytesBE_f64, bytesLE_f64]
+  exact ⟨core, core⟩
+
+/-- witnesses: under the old rule the smallest binary32 subnormal was read as 1 + 2^-23, the largest as 2 − 2^-23, the
+    smallest binary64 subnormal as 2^-1023 (pattern 0x0008000000000000) -/
+example : f32LeReadOld (Spec.bytesLE f32 1) = 0x3F800001 ∧ f32BeReadOld (Spec.bytesBE f32 0x007FFFFF) = 0x3FFFFFFF ∧
+    f64LeReadOld (Spec.bytesLE f64 1) = 0x0008000000000000 ∧
+    f32.expo 1 = 0 ∧ f32.frac 1 ≠ 0 ∧ f64.expo 1 = 0 := by decide +kernel
+
+/-! ## writers (current rule: `fabs (in) < FLT_MIN` / `DBL_MIN`, after the `fix:` commit "flushed every normal value
+    below 1e-30 to zero") -/
+
+/-- what is flushed now: exactly the zeros and the subnormals -/
+theorem flushes_iff_not_normal (f : Fmt) (b : Nat) (hfin : f.isFinite b = true) :
+    flushes f b = true ↔ f.expo b = 0 := by
+  constructor
+  · intro h
+    by_contra he
+    have hn : f.isNormal b = true := by
+      have : f.expo b ≠ f.emax := by simpa [Fmt.isFinite] using hfin
+      simp [Fmt.isNormal, this, he]
+    rw [flushes_normal f b hn] at h; exact Bool.false_ne_true h
+  · exact flushes_expo_zero f b hfin
+
+/-- bytes produced for a normal value by a writer whose flush rule lets it through (either rule) -/
+theorem f32WriteBytesWith_normal (fl : Nat → Bool) (b : Nat) (hb : b < 2 ^ 32) (hn : f32.isNormal b = true) (hk : fl b = false) :
+    f32WriteBytesWith fl b = [b / 16777216 % 256, b / 65536 % 256, b / 256 % 256, b % 256] := by
+  have hw := f32WriteFieldsWith_normal fl b hn hk
+  obtain ⟨h1, h2, h3⟩ := f32_fields b
+  have hsgn : (if f32.sign b = true then 1 else 0) = b / 2147483648 % 2 := by
+    rw [h3]; by_cases hs : b / 2147483648 % 2 = 1 <;> simp [hs]; omega
+  simp only [f32WriteBytesWith, hw]
+  rw [hsgn, h1, h2]
+  simp only [List.cons.injEq, and_true]
+  refine ⟨?_, ?_, ?_, ?_⟩ <;> (show ((_ : Nat) = _); omega)
+
+theorem f64WriteBytesWith_normal (fl : Nat → Bool) (b : Nat) (hb : b < 2 ^ 64) (hn : f64.isNormal b = true) (hk : fl b = false) :
+    f64WriteBytesWith fl b = [b / 72057594037927936 % 256, b / 281474976710656 % 256, b / 1099511627776 % 256,
+      b / 4294967296 % 256, b / 16777216 % 256, b / 65536 % 256, b / 256 % 256, b % 256] := by
+  have hw := f64WriteFieldsWith_normal fl b hn hk
+  obtain ⟨h1, h2, h3⟩ := f64_fields b
+  have hsgn : (if f64.sign b = true then 1 else 0) = b / 9223372036854775808 % 2 := by
+    rw [h3]; by_cases hs : b / 9223372036854775808 % 2 = 1 <;> simp [hs]; omega
+  simp only [f64WriteBytesWith, hw]
+  rw [hsgn, h1, h2]
+  simp only [List.cons.injEq, and_true]
+  clear hw hsgn h1 h2 h3 hk hn
+  refine ⟨?_, ?_, ?_, ?_, ?_, ?_, ?_, ?_⟩ <;> (show ((_ : Nat) = _); omega)
+
+/-- the C20 statement for the binary32 writers, at full strength: every finite normal value is serialised to its own
+    bit string, in both byte orders -/
+theorem ieee_write_native_f32 (b : Nat) (hb : b < 2 ^ 32) (hn : Spec.isNormal f32 b = true) :
+    f32BeWrite b = Spec.bytesBE f32 b ∧ f32LeWrite b = Spec.bytesLE f32 b := by
+  have hn2 := (finite_of_spec_normal f32 f32_std b hn).1
+  have key := f32WriteBytesWith_normal (flushes f32) b hb hn2 (flushes_normal f32 b hn2)
+  constructor
+  · rw [f32BeWrite, f32WriteBytes, key, bytesBE_f32]
+  · rw [f32LeWrite, f32WriteBytes, key, bytesLE_f32]; rfl
+
+/-- … and for the binary64 writers -/
+theorem ieee_write_native_f64 (b : Nat) (hb : b < 2 ^ 64) (hn : Spec.isNormal f64 b = true) :
+    f64BeWrite b = Spec.bytesBE f64 b ∧ f64LeWrite b = Spec.bytesLE f64 b := by
+  have hn2 := (finite_of_spec_normal f64 f64_std b hn).1
+  have key := f64WriteBytesWith_normal (flushes f64) b hb hn2 (flushes_normal f64 b hn2)
+  constructor
+  · rw [f64BeWrite, f64WriteBytes, key, bytesBE_f64]
+  · rw [f64LeWrite, f64WriteBytes, key, bytesLE_f64]; rfl
+
+/-- non-vacuity: ordinary values, the smallest normal values and the old boundary are written as their own bytes -/
+example : Spec.isNormal f32 0xC2F6E979 = true ∧ f32LeWrite 0xC2F6E979 = [0x79, 0xE9, 0xF6, 0xC2] ∧
+    f32BeWrite 0x00800000 = [0x00, 0x80, 0, 0] ∧ f32BeWrite 0x0DA2425F = [0x0D, 0xA2, 0x42, 0x5F] ∧
+    Spec.isNormal f64 0x0010000000000000 = true ∧ f64BeWrite 0x0010000000000000 = [0, 0x10, 0, 0, 0, 0, 0, 0] ∧
+    f64BeWrite 0xC00921FB54442D18 = [0xC0, 0x09, 0x21, 0xFB, 0x54, 0x44, 0x2D, 0x18] := by decide +kernel
+
+/-- zeros and subnormals are written as zero bytes (+0), whatever the value and its sign: the writers have no encoding for
+    exponent field 0.  Outside the C20 statement; it is the write half of the C01 class `KF.ieeeTiny` below. -/
+theorem ieee_write_tiny (b : Nat) :
+    (f32.isFinite b = true → f32.expo b = 0 → f32BeWrite b = [0, 0, 0, 0] ∧ f32LeWrite b = [0, 0, 0, 0]) ∧
+    (f64.isFinite b = true → f64.expo b = 0 → f64BeWrite b = [0, 0, 0, 0, 0, 0, 0, 0] ∧ f64LeWrite b = [0, 0, 0, 0, 0, 0, 0, 0]) := by
+  constructor
+  · intro hfin he
+    have h := flushes_expo_zero f32 b hfin he
+    have hw : f32WriteFieldsWith (flushes f32) b = none := by
+      unfold f32WriteFieldsWith; simp only [hfin, Bool.not_true, Bool.false_eq_true, if_false, h, if_true]
+    simp [f32BeWrite, f32LeWrite, f32WriteBytes, f32WriteBytesWith, hw]
+  · intro hfin he
+    have h := flushes_expo_zero f64 b hfin he
+    have hw : f64WriteFieldsWith (flushes f64) b = none := by
+      unfold f64WriteFieldsWith; simp only [hfin, Bool.not_true, Bool.false_eq_true, if_false, h, if_true]
+    simp [f64BeWrite, f64LeWrite, f64WriteBytes, f64WriteBytesWith, hw]
+
+/-! ### the writers before the repair (`fabs (in) < 1e-30`, `f32BeWriteOld` &c.) -/
+
+/-- the property for the old writers … -/
+def ieee_write_f32_old_rule_full : Prop :=
+  ∀ b, b < 2 ^ 32 → Spec.isNormal f32 b = true → f32BeWriteOld b = Spec.bytesBE f32 b ∧ f32LeWriteOld b = Spec.bytesLE f32 b
+def ieee_write_f64_old_rule_full : Prop :=
+  ∀ b, b < 2 ^ 64 → Spec.isNormal f64 b = true → f64BeWriteOld b = Spec.bytesBE f64 b ∧ f64LeWriteOld b = Spec.bytesLE f64 b
+
+/-- … was false: the smallest normal binary32 value 2^-126 was written as four zero bytes -/
+theorem ieee_write_f32_old_rule_fails : ¬ ieee_write_f32_old_rule_full := by
   intro h
   have := (h 0x00800000 (by decide) (by decide)).1
   revert this
   decide +kernel
 
 /-- … and 2^-1022 (and every normal double below 1e-30, some 922 binades) as eight zero bytes -/
-theorem ieee_write_f64_fails : ¬ ieee_write_f64_full := by
+theorem ieee_write_f64_old_rule_fails : ¬ ieee_write_f64_old_rule_full := by
   intro h
   have := (h 0x0010000000000000 (by decide) (by decide)).1
   revert this
   decide +kernel
 
-/-- the known-finding class KF-C20-ieee-flush: `fabs (in) < 1e-30` -/
-def KF.ieeeFlush (f : Fmt) (b : Nat) : Bool := flushes f b
+/-- the class of the repaired defect KF-C20-ieee-flush -/
+def KF.ieeeFlush (f : Fmt) (b : Nat) : Bool := flushesOld f b
 
-/-- the class in bit terms at its boundary: 0x0DA2425F is the largest flushed binary32 magnitude, 0x0DA24260 the first
-    that is written; for binary64 the boundary is the pattern of 1e-30 itself -/
-theorem ieee_flush_boundary :
+/-- the old class in bit terms: a finite binary32 value was flushed iff its magnitude pattern is below 0x0DA24260 -/
+theorem flushes_old_rule_iff_f32 (b : Nat) (hfin : f32.isFinite b = true) :
+    KF.ieeeFlush f32 b = true ↔ b % 2 ^ 31 < 0x0DA24260 := by
+  have hlo : (f32.toDy 0x0DA2425F).mag < flushBoundOld.val := by
+    have : (f32.toDy 0x0DA2425F).abs.lt flushBoundOld = true := by decide +kernel
+    rwa [Dy.lt_iff, abs_val] at this
+  have hhi : ¬ (f32.toDy 0x0DA24260).mag < flushBoundOld.val := by
+    have : (f32.toDy 0x0DA24260).abs.lt flushBoundOld = false := by decide +kernel
+    intro h; rw [← abs_val, ← Dy.lt_iff, this] at h; exact Bool.false_ne_true h
+  obtain ⟨h1, h2, _⟩ := f32_fields b
+  have e1 : f32.expo 0x0DA2425F = 27 ∧ f32.frac 0x0DA2425F = 0x22425F := by decide
+  have e2 : f32.expo 0x0DA24260 = 27 ∧ f32.frac 0x0DA24260 = 0x224260 := by decide
+  unfold KF.ieeeFlush flushesOld
+  rw [hfin, Bool.true_and, Dy.lt_iff, abs_val]
+  constructor
+  · intro h
+    by_contra hc
+    have := toDy_mag_mono f32 0x0DA24260 b (by rw [e2.1, e2.2, h1, h2]; omega)
+    exact hhi (lt_of_le_of_lt this h)
+  · intro h
+    have := toDy_mag_mono f32 b 0x0DA2425F (by rw [e1.1, e1.2, h1, h2]; omega)
+    exact lt_of_le_of_lt this hlo
+
+/-- … and a finite binary64 value iff its magnitude pattern is below that of 1e-30 itself -/
+theorem flushes_old_rule_iff_f64 (b : Nat) (hfin : f64.isFinite b = true) :
+    KF.ieeeFlush f64 b = true ↔ b % 2 ^ 63 < 0x39B4484BFEEBC2A0 := by
+  have hlo : (f64.toDy 0x39B4484BFEEBC29F).mag < flushBoundOld.val := by
+    have : (f64.toDy 0x39B4484BFEEBC29F).abs.lt flushBoundOld = true := by decide +kernel
+    rwa [Dy.lt_iff, abs_val] at this
+  have hhi : ¬ (f64.toDy 0x39B4484BFEEBC2A0).mag < flushBoundOld.val := by
+    have : (f64.toDy 0x39B4484BFEEBC2A0).abs.lt flushBoundOld = false := by decide +kernel
+    intro h; rw [← abs_val, ← Dy.lt_iff, this] at h; exact Bool.false_ne_true h
+  obtain ⟨h1, h2, _⟩ := f64_fields b
+  have e1 : f64.expo 0x39B4484BFEEBC29F = 923 ∧ f64.frac 0x39B4484BFEEBC29F = 0x4484BFEEBC29F := by decide
+  have e2 : f64.expo 0x39B4484BFEEBC2A0 = 923 ∧ f64.frac 0x39B4484BFEEBC2A0 = 0x4484BFEEBC2A0 := by decide
+  unfold KF.ieeeFlush flushesOld
+  rw [hfin, Bool.true_and, Dy.lt_iff, abs_val]
+  constructor
+  · intro h
+    by_contra hc
+    have := toDy_mag_mono f64 0x39B4484BFEEBC2A0 b (by rw [e2.1, e2.2, h1, h2]; omega)
+    exact hhi (lt_of_le_of_lt this h)
+  · intro h
+    have := toDy_mag_mono f64 b 0x39B4484BFEEBC29F (by rw [e1.1, e1.2, h1, h2]; omega)
+    exact lt_of_le_of_lt this hlo
+
+/-- the old boundary witnesses: 0x0DA2425F was the largest flushed binary32 magnitude, 0x0DA24260 the first written -/
+theorem ieee_flush_boundary_old_rule :
     KF.ieeeFlush f32 0x0DA2425F = true ∧ KF.ieeeFlush f32 0x0DA24260 = false ∧ KF.ieeeFlush f32 0x8DA2425F = true ∧
     KF.ieeeFlush f64 0x39B4484BFEEBC29F = true ∧ KF.ieeeFlush f64 0x39B4484BFEEBC2A0 = false ∧
-    KF.ieeeFlush f32 0x00800000 = true ∧ KF.ieeeFlush f64 0x0010000000000000 = true := by decide +kernel
+    f32BeWriteOld 0x0DA2425F = [0, 0, 0, 0] ∧ f32BeWriteOld 0x0DA24260 = [0x0D, 0xA2, 0x42, 0x60] ∧
+    f32BeWrite 0x0DA2425F = [0x0D, 0xA2, 0x42, 0x5F] := by decide +kernel
 
-/-- inside the class the writers produce zero bytes (+0), whatever the value and its sign -/
-theorem ieee_write_flushed (b : Nat) :
-    (KF.ieeeFlush f32 b = true → f32BeWrite b = [0, 0, 0, 0] ∧ f32LeWrite b = [0, 0, 0, 0]) ∧
-    (KF.ieeeFlush f64 b = true → f64BeWrite b = [0, 0, 0, 0, 0, 0, 0, 0] ∧ f64LeWrite b = [0, 0, 0, 0, 0, 0, 0, 0]) := by
+/-- outside the old class the old writers produced the native bit string (what round 2 proved as `…_partial`) -/
+theorem ieee_write_old_rule_partial :
+    (∀ b, b < 2 ^ 32 → Spec.isNormal f32 b = true → KF.ieeeFlush f32 b = false →
+      f32BeWriteOld b = Spec.bytesBE f32 b ∧ f32LeWriteOld b = Spec.bytesLE f32 b) ∧
+    (∀ b, b < 2 ^ 64 → Spec.isNormal f64 b = true → KF.ieeeFlush f64 b = false →
+      f64BeWriteOld b = Spec.bytesBE f64 b ∧ f64LeWriteOld b = Spec.bytesLE f64 b) := by
   constructor
-  · intro h
-    have hfin : f32.isFinite b = true := by
-      simp only [KF.ieeeFlush, flushes, Bool.and_eq_true] at h; exact h.1
-    have hw : f32WriteFields b = none := by
-      unfold f32WriteFields; simp only [hfin, Bool.not_true, Bool.false_eq_true, if_false]
-      simp only [KF.ieeeFlush] at h; simp only [h, if_true]
-    simp [f32BeWrite, f32LeWrite, f32WriteBytes, hw]
-  · intro h
-    have hfin : f64.isFinite b = true := by
-      simp only [KF.ieeeFlush, flushes, Bool.and_eq_true] at h; exact h.1
-    have hw : f64WriteFields b = none := by
-      unfold f64WriteFields; simp only [hfin, Bool.not_true, Bool.false_eq_true, if_false]
-      simp only [KF.ieeeFlush] at h; simp only [h, if_true]
-    simp [f64BeWrite, f64LeWrite, f64WriteBytes, hw]
+  · intro b hb hn hk
+    have key := f32WriteBytesWith_normal (flushesOld f32) b hb (finite_of_spec_normal f32 f32_std b hn).1 hk
+    constructor
+    · rw [f32BeWriteOld, key, bytesBE_f32]
+    · rw [f32LeWriteOld, key, bytesLE_f32]; rfl
+  · intro b hb hn hk
+    have key := f64WriteBytesWith_normal (flushesOld f64) b hb (finite_of_spec_normal f64 f64_std b hn).1 hk
+    constructor
+    · rw [f64BeWriteOld, key, bytesBE_f64]
+    · rw [f64LeWriteOld, key, bytesLE_f64]; rfl
 
-/-- outside the class the binary32 writers produce the value's own bit string, in both byte orders -/
-theorem ieee_write_f32_partial (b : Nat) (hb : b < 2 ^ 32) (hn : Spec.isNormal f32 b = true)
-    (hk : KF.ieeeFlush f32 b = false) :
-    f32BeWrite b = Spec.bytesBE f32 b ∧ f32LeWrite b = Spec.bytesLE f32 b := by
-  rw [spec_isNormal_iff f32 f32_std] at hn
-  have hw := f32WriteFields_normal b hn hk
-  obtain ⟨h1, h2, h3⟩ := f32_fields b
-  have hsgn : (if f32.sign b = true then 1 else 0) = b / 2147483648 % 2 := by
-    rw [h3]; by_cases hs : b / 2147483648 % 2 = 1 <;> simp [hs]; omega
-  have key : f32WriteBytes b = [b / 16777216 % 256, b / 65536 % 256, b / 256 % 256, b % 256] := by
-    simp only [f32WriteBytes, hw]
-    rw [hsgn, h1, h2]
-    simp only [List.cons.injEq, and_true]
-    refine ⟨?_, ?_, ?_, ?_⟩ <;> (show ((_ : Nat) = _); omega)
-  constructor
-  · rw [f32BeWrite, key, bytesBE_f32]
-  · rw [f32LeWrite, key, bytesLE_f32]; rfl
+/-! ## write then read (also the C01 statement for the portable path: SFC_TEST_IEEE_FLOAT_REPLACE on) -/
 
-/-- non-vacuity: an ordinary value satisfies the hypotheses and is written as its own bytes -/
-example : Spec.isNormal f32 0xC2F6E979 = true ∧ KF.ieeeFlush f32 0xC2F6E979 = false ∧
-    f32LeWrite 0xC2F6E979 = [0x79, 0xE9, 0xF6, 0xC2] ∧ f32BeWrite 0x0DA24260 = [0x0D, 0xA2, 0x42, 0x60] := by decide
-
-/-- outside the class the binary64 writers produce the value's own bit string, in both byte orders -/
-theorem ieee_write_f64_partial (b : Nat) (hb : b < 2 ^ 64) (hn : Spec.isNormal f64 b = true)
-    (hk : KF.ieeeFlush f64 b = false) :
-    f64BeWrite b = Spec.bytesBE f64 b ∧ f64LeWrite b = Spec.bytesLE f64 b := by
-  rw [spec_isNormal_iff f64 f64_std] at hn
-  have hw := f64WriteFields_normal b hn hk
-  obtain ⟨h1, h2, h3⟩ := f64_fields b
-  have hsgn : (if f64.sign b = true then 1 else 0) = b / 9223372036854775808 % 2 := by
-    rw [h3]; by_cases hs : b / 9223372036854775808 % 2 = 1 <;> simp [hs]; omega
-  have key : f64WriteBytes b = [b / 72057594037927936 % 256, b / 281474976710656 % 256, b / 1099511627776 % 256,
-      b / 4294967296 % 256, b / 16777216 % 256, b / 65536 % 256, b / 256 % 256, b % 256] := by
-    simp only [f64WriteBytes, hw]
-    rw [hsgn, h1, h2]
-    simp only [List.cons.injEq, and_true]
-    clear hw hsgn h1 h2 h3 hk hn
-    refine ⟨?_, ?_, ?_, ?_, ?_, ?_, ?_, ?_⟩ <;> (show ((_ : Nat) = _); omega)
-  constructor
-  · rw [f64BeWrite, key, bytesBE_f64]
-  · rw [f64LeWrite, key, bytesLE_f64]; rfl
-
-/-- non-vacuity -/
-example : Spec.isNormal f64 0xC00921FB54442D18 = true ∧ KF.ieeeFlush f64 0xC00921FB54442D18 = false ∧
-    f64BeWrite 0xC00921FB54442D18 = [0xC0, 0x09, 0x21, 0xFB, 0x54, 0x44, 0x2D, 0x18] := by decide +kernel
-
-/-! ## write then read -/
-
-/-- on the domain of the partial theorems, reading back what was written gives the value's bits; inside the
-    flush class it gives +0 -/
+/-- every finite normal value survives write-then-read bit for bit, in both byte orders -/
 theorem write_read_roundtrip_f32 (b : Nat) (hb : b < 2 ^ 32) (hn : Spec.isNormal f32 b = true) :
-    (KF.ieeeFlush f32 b = false → f32BeRead (f32BeWrite b) = b ∧ f32LeRead (f32LeWrite b) = b) ∧
-    (KF.ieeeFlush f32 b = true → f32BeRead (f32BeWrite b) = 0 ∧ f32LeRead (f32LeWrite b) = 0) := by
-  constructor
-  · intro hk
-    obtain ⟨w1, w2⟩ := ieee_write_f32_partial b hb hn hk
-    obtain ⟨r1, r2⟩ := ieee_read_native_f32 b hb hn
-    rw [w1, w2]; exact ⟨r1, r2⟩
-  · intro hk
-    obtain ⟨w1, w2⟩ := (ieee_write_flushed b).1 hk
-    rw [w1, w2]; decide
+    f32BeRead (f32BeWrite b) = b ∧ f32LeRead (f32LeWrite b) = b := by
+  obtain ⟨w1, w2⟩ := ieee_write_native_f32 b hb hn
+  obtain ⟨r1, r2⟩ := ieee_read_native_f32 b hb hn
+  rw [w1, w2]; exact ⟨r1, r2⟩
 
 theorem write_read_roundtrip_f64 (b : Nat) (hb : b < 2 ^ 64) (hn : Spec.isNormal f64 b = true) :
-    (KF.ieeeFlush f64 b = false → f64BeRead (f64BeWrite b) = b ∧ f64LeRead (f64LeWrite b) = b) ∧
-    (KF.ieeeFlush f64 b = true → f64BeRead (f64BeWrite b) = 0 ∧ f64LeRead (f64LeWrite b) = 0) := by
-  constructor
-  · intro hk
-    obtain ⟨w1, w2⟩ := ieee_write_f64_partial b hb hn hk
-    obtain ⟨r1, r2⟩ := ieee_read_native_f64 b hb hn
-    rw [w1, w2]; exact ⟨r1, r2⟩
-  · intro hk
-    obtain ⟨w1, w2⟩ := (ieee_write_flushed b).2 hk
-    rw [w1, w2]; decide
+    f64BeRead (f64BeWrite b) = b ∧ f64LeRead (f64LeWrite b) = b := by
+  obtain ⟨w1, w2⟩ := ieee_write_native_f64 b hb hn
+  obtain ⟨r1, r2⟩ := ieee_read_native_f64 b hb hn
+  rw [w1, w2]; exact ⟨r1, r2⟩
 
-example : f32LeRead (f32LeWrite 0x3DCCCCCD) = 0x3DCCCCCD ∧ f32LeRead (f32LeWrite 0x00800000) = 0 := by decide +kernel
+/-- C01 over ALL finite values through the portable path, as stated -/
+def replace_roundtrip_f32_full : Prop := ∀ b, b < 2 ^ 32 → f32.isFinite b = true → f32LeRead (f32LeWrite b) = b
+def replace_roundtrip_f64_full : Prop := ∀ b, b < 2 ^ 64 → f64.isFinite b = true → f64LeRead (f64LeWrite b) = b
+
+/-- the known-finding class KF-C01-ieee-tiny: a subnormal or −0 (exponent field 0, pattern not +0) -/
+def KF.ieeeTiny (f : Fmt) (b : Nat) : Bool := f.expo b == 0 && b != 0
+
+/-- … is false: the smallest subnormal and −0 come back as +0 (the writers have no encoding for exponent field 0) -/
+theorem replace_roundtrip_fails : ¬ replace_roundtrip_f32_full ∧ ¬ replace_roundtrip_f64_full := by
+  constructor
+  · intro h
+    have := h 0x80000000 (by decide) (by decide)
+    revert this; decide +kernel
+  · intro h
+    have := h 1 (by decide) (by decide)
+    revert this; decide +kernel
+
+/-- outside the class — every normal value and +0 — the round trip is exact; inside it the result is +0 -/
+theorem replace_roundtrip_partial :
+    (∀ b, b < 2 ^ 32 → f32.isFinite b = true →
+      (KF.ieeeTiny f32 b = false → f32LeRead (f32LeWrite b) = b) ∧ (KF.ieeeTiny f32 b = true → f32LeRead (f32LeWrite b) = 0)) ∧
+    (∀ b, b < 2 ^ 64 → f64.isFinite b = true →
+      (KF.ieeeTiny f64 b = false → f64LeRead (f64LeWrite b) = b) ∧ (KF.ieeeTiny f64 b = true → f64LeRead (f64LeWrite b) = 0)) := by
+  constructor
+  · intro b hb hfin
+    by_cases he : f32.expo b = 0
+    · have hw := ((ieee_write_tiny b).1 hfin he).2
+      have hz : f32LeRead [0, 0, 0, 0] = 0 := by decide
+      constructor
+      · intro hk
+        have : b = 0 := by simpa [KF.ieeeTiny, he] using hk
+        rw [hw, hz, this]
+      · intro _; rw [hw, hz]
+    · have hne : f32.expo b ≠ f32.emax := by simpa [Fmt.isFinite] using hfin
+      have hn : Spec.isNormal f32 b = true := by rw [spec_isNormal_iff f32 f32_std]; simp [Fmt.isNormal, hne, he]
+      constructor
+      · intro _; exact (write_read_roundtrip_f32 b hb hn).2
+      · intro hk; simp [KF.ieeeTiny, he] at hk
+  · intro b hb hfin
+    by_cases he : f64.expo b = 0
+    · have hw := ((ieee_write_tiny b).2 hfin he).2
+      have hz : f64LeRead [0, 0, 0, 0, 0, 0, 0, 0] = 0 := by decide
+      constructor
+      · intro hk
+        have : b = 0 := by simpa [KF.ieeeTiny, he] using hk
+        rw [hw, hz, this]
+      · intro _; rw [hw, hz]
+    · have hne : f64.expo b ≠ f64.emax := by simpa [Fmt.isFinite] using hfin
+      have hn : Spec.isNormal f64 b = true := by rw [spec_isNormal_iff f64 f64_std]; simp [Fmt.isNormal, hne, he]
+      constructor
+      · intro _; exact (write_read_roundtrip_f64 b hb hn).2
+      · intro hk; simp [KF.ieeeTiny, he] at hk
+
+example : f32LeRead (f32LeWrite 0x3DCCCCCD) = 0x3DCCCCCD ∧ f32LeRead (f32LeWrite 0x00800000) = 0x00800000 ∧
+    KF.ieeeTiny f32 0x80000000 = true ∧ KF.ieeeTiny f32 0 = false ∧ KF.ieeeTiny f32 0x3DCCCCCD = false ∧
+    f32LeRead (f32LeWrite 0x007FFFFF) = 0 := by decide +kernel
 
 /-! ## byte-order helpers -/
 
@@ -432,5 +588,306 @@ theorem get_le_is_get_be_reversed (a b c d : Nat) :
 example : putBe32 (-2) = [0xFF, 0xFF, 0xFF, 0xFE] ∧ getBe32 [0xFF, 0xFF, 0xFF, 0xFE] = -2 ∧ getLe32 [1, 2, 3, 4] = 0x04030201 ∧
     getBe16 [0x80, 0x01] = -32767 ∧ getBe24 [0x80, 0, 1] = -2147483392 ∧ getLe64 [1, 0, 0, 0, 0, 0, 0, 0x80] = -9223372036854775807 ∧
     putBe64 (-9223372036854775807) = [0x80, 0, 0, 0, 0, 0, 0, 1] := by decide
+
+/-! ### BitVec-level swaps -/
+
+/-- 64-bit swap = byte-string reversal -/
+theorem endswap64_reverses_bytes (x : Nat) (hx : x < 2 ^ 64) : ofBE (leBytes 8 x) = endswap64 x := by
+  have hhi : x / 4294967296 % 4294967296 = x / 4294967296 := Nat.mod_eq_of_lt (by omega)
+  have h1 := (endswap_reverses_bytes (x / 4294967296)).2
+  have h2 := (endswap_reverses_bytes (x % 4294967296)).2
+  unfold endswap64
+  rw [hhi, ← h1, ← h2]
+  simp only [ofBE, leBytes, List.reverse_cons, List.reverse_nil, List.nil_append, List.cons_append, ofLE,
+    Nat.div_div_eq_div_mul, Nat.reduceMul]
+  have a1 : x % 4294967296 / 256 % 256 = x / 256 % 256 := by omega
+  have a2 : x % 4294967296 / 65536 % 256 = x / 65536 % 256 := by omega
+  have a3 : x % 4294967296 / 16777216 % 256 = x / 16777216 % 256 := by omega
+  have a0 : x % 4294967296 % 256 = x % 256 := by omega
+  rw [a0, a1, a2, a3]
+  generalize x % 256 = b0
+  generalize x / 256 % 256 = b1
+  generalize x / 65536 % 256 = b2
+  generalize x / 16777216 % 256 = b3
+  generalize x / 4294967296 % 256 = b4
+  generalize x / 1099511627776 % 256 = b5
+  generalize x / 281474976710656 % 256 = b6
+  generalize x / 72057594037927936 % 256 = b7
+  omega
+
+theorem or_shift_add (a b : Nat) (hb : b < 256) : a <<< 8 ||| b = a * 256 + b := by
+  rw [← Nat.shiftLeft_add_eq_or_of_lt (by simpa using hb), Nat.shiftLeft_eq]
+
+theorem bvswap16_eq (x : BitVec 16) : bvswap16 x = bswap16 x := by
+  apply BitVec.eq_of_toNat_eq
+  have hx := x.isLt
+  have hl : endswap16 x.toNat < 2 ^ 16 := by unfold endswap16; omega
+  simp only [bvswap16, bswap16, BitVec.toNat_append, BitVec.extractLsb'_toNat, BitVec.toNat_ofNat, Nat.mod_eq_of_lt hl]
+  rw [or_shift_add _ _ (Nat.mod_lt _ (by norm_num))]
+  simp only [Nat.shiftRight_eq_div_pow, endswap16]
+  omega
+
+theorem bvswap32_eq (x : BitVec 32) : bvswap32 x = bswap32 x := by
+  apply BitVec.eq_of_toNat_eq
+  have hx := x.isLt
+  simp only [bvswap32, bswap32, BitVec.toNat_append, BitVec.extractLsb'_toNat, BitVec.toNat_ofNat, Nat.mod_eq_of_lt (endswap32_lt _)]
+  rw [or_shift_add _ _ (Nat.mod_lt _ (by norm_num)), or_shift_add _ _ (Nat.mod_lt _ (by norm_num)), or_shift_add _ _ (Nat.mod_lt _ (by norm_num))]
+  simp only [Nat.shiftRight_eq_div_pow, endswap32, Nat.reducePow, Nat.div_one]
+  omega
+theorem endswap64_lt (x : Nat) : endswap64 x < 2 ^ 64 := by
+  unfold endswap64
+  have a := endswap32_lt (x / 4294967296 % 4294967296)
+  have b := endswap32_lt (x % 4294967296)
+  omega
+
+theorem bvswap64_eq (x : BitVec 64) : bvswap64 x = bswap64 x := by
+  apply BitVec.eq_of_toNat_eq
+  have hx := x.isLt
+  simp only [bvswap64, bswap64, BitVec.toNat_append, BitVec.extractLsb'_toNat, BitVec.toNat_ofNat, Nat.mod_eq_of_lt (endswap64_lt _)]
+  rw [or_shift_add _ _ (Nat.mod_lt _ (by norm_num)), or_shift_add _ _ (Nat.mod_lt _ (by norm_num)), or_shift_add _ _ (Nat.mod_lt _ (by norm_num)),
+    or_shift_add _ _ (Nat.mod_lt _ (by norm_num)), or_shift_add _ _ (Nat.mod_lt _ (by norm_num)), or_shift_add _ _ (Nat.mod_lt _ (by norm_num)),
+    or_shift_add _ _ (Nat.mod_lt _ (by norm_num))]
+  simp only [Nat.shiftRight_eq_div_pow, Nat.reducePow, Nat.div_one]
+  generalize x.toNat = n at *
+  have h := endswap64_reverses_bytes n hx
+  rw [← h]
+  simp only [ofBE, leBytes, List.reverse_cons, List.reverse_nil, List.nil_append, List.cons_append, ofLE,
+    Nat.div_div_eq_div_mul, Nat.reduceMul]
+  omega
+
+/-- the BitVec-level swaps (`bvswap*`: the byte fields re-assembled in reverse order with `extractLsb'` / `++`) are exact
+    involutions on every bit pattern -/
+theorem bvswap_involutive :
+    (∀ x : BitVec 16, bvswap16 (bvswap16 x) = x) ∧ (∀ x : BitVec 32, bvswap32 (bvswap32 x) = x) ∧
+    (∀ x : BitVec 64, bvswap64 (bvswap64 x) = x) := by
+  obtain ⟨i16, i32, i64⟩ := endswap_involutive
+  refine ⟨fun x => ?_, fun x => ?_, fun x => ?_⟩
+  · rw [bvswap16_eq, bvswap16_eq]; exact i16 x
+  · rw [bvswap32_eq, bvswap32_eq]; exact i32 x
+  · rw [bvswap64_eq, bvswap64_eq]; exact i64 x
+
+example : bvswap16 0x1234#16 = 0x3412#16 ∧ bvswap32 0x12345678#32 = 0x78563412#32 ∧
+    bvswap64 0x0102030405060708#64 = 0x0807060504030201#64 := by decide
+
+/-! ### put after get, 64-bit round trips -/
+
+theorem byteAt_eq64 (v : Int) : byteAt v 32 = (v / 4294967296 % 256).toNat ∧ byteAt v 40 = (v / 1099511627776 % 256).toNat ∧
+    byteAt v 48 = (v / 281474976710656 % 256).toNat ∧ byteAt v 56 = (v / 72057594037927936 % 256).toNat := by
+  simp [byteAt, wrapU, asr]
+theorem wrapS64_eq (x : Int) : wrapS 64 x = if x % 18446744073709551616 < 9223372036854775808 then x % 18446744073709551616
+    else x % 18446744073709551616 - 18446744073709551616 := by
+  simp [wrapS]
+
+/-- the eight bytes `psf_put_be64` stores are the base-256 digits of the unsigned residue -/
+theorem byteAt_digits64 (v : Int) (w : Nat) (hw : (w : Int) = v % 18446744073709551616) :
+    byteAt v 0 = w % 256 ∧ byteAt v 8 = w / 256 % 256 ∧ byteAt v 16 = w / 65536 % 256 ∧ byteAt v 24 = w / 16777216 % 256 ∧
+    byteAt v 32 = w / 4294967296 % 256 ∧ byteAt v 40 = w / 1099511627776 % 256 ∧
+    byteAt v 48 = w / 281474976710656 % 256 ∧ byteAt v 56 = w / 72057594037927936 % 256 := by
+  obtain ⟨e0, e8, e16, e24⟩ := byteAt_eq v
+  obtain ⟨e32, e40, e48, e56⟩ := byteAt_eq64 v
+  rw [e0, e8, e16, e24, e32, e40, e48, e56]
+  refine ⟨?_, ?_, ?_, ?_, ?_, ?_, ?_, ?_⟩ <;> (show ((_ : Nat) = _); omega)
+
+theorem digits64_sum (w : Nat) (hw : w < 2 ^ 64) :
+    ((w / 72057594037927936 % 256 % 256) * 16777216 + (w / 281474976710656 % 256 % 256) * 65536 + (w / 1099511627776 % 256 % 256) * 256
+        + w / 4294967296 % 256 % 256) * 4294967296
+      + ((w / 16777216 % 256 % 256) * 16777216 + (w / 65536 % 256 % 256) * 65536 + (w / 256 % 256 % 256) * 256 + w % 256 % 256) = w := by
+  have d1 : w / 65536 = w / 256 / 256 := by rw [Nat.div_div_eq_div_mul]
+  have d2 : w / 16777216 = w / 256 / 256 / 256 := by rw [Nat.div_div_eq_div_mul, Nat.div_div_eq_div_mul]
+  have d3 : w / 4294967296 = w / 256 / 256 / 256 / 256 := by simp [Nat.div_div_eq_div_mul]
+  have d4 : w / 1099511627776 = w / 256 / 256 / 256 / 256 / 256 := by simp [Nat.div_div_eq_div_mul]
+  have d5 : w / 281474976710656 = w / 256 / 256 / 256 / 256 / 256 / 256 := by simp [Nat.div_div_eq_div_mul]
+  have d6 : w / 72057594037927936 = w / 256 / 256 / 256 / 256 / 256 / 256 / 256 := by simp [Nat.div_div_eq_div_mul]
+  rw [d1, d2, d3, d4, d5, d6]
+  have h7 : w / 256 / 256 / 256 / 256 / 256 / 256 / 256 < 256 := by rw [← d6]; omega
+  clear d1 d2 d3 d4 d5 d6
+  generalize h1 : w / 256 = x1 at *
+  generalize h2 : x1 / 256 = x2 at *
+  generalize h3 : x2 / 256 = x3 at *
+  generalize h4 : x3 / 256 = x4 at *
+  generalize h5 : x4 / 256 = x5 at *
+  generalize h6 : x5 / 256 = x6 at *
+  generalize h7' : x6 / 256 = x7 at *
+  omega
+
+/-- put then get is the identity on the whole `int64_t` range -/
+theorem get_put_be64 (v : Int) (h1 : -9223372036854775808 ≤ v) (h2 : v ≤ 9223372036854775807) : getBe64 (putBe64 v) = v := by
+  obtain ⟨w, hw⟩ : ∃ w : Nat, (w : Int) = v % 18446744073709551616 := ⟨(v % 18446744073709551616).toNat, by omega⟩
+  have hwlt : w < 2 ^ 64 := by omega
+  obtain ⟨b0, b8, b16, b24, b32, b40, b48, b56⟩ := byteAt_digits64 v w hw
+  rw [putBe64, b0, b8, b16, b24, b32, b40, b48, b56]
+  simp only [getBe64]
+  rw [digits64_sum w hwlt, wrapS64_eq]
+  split <;> omega
+
+/-- get then put is the identity on 8-byte strings -/
+theorem put_get_be64 (a b c d e f g h : Nat) (ha : a < 256) (hb : b < 256) (hc : c < 256) (hd : d < 256)
+    (he : e < 256) (hf : f < 256) (hg : g < 256) (hh : h < 256) :
+    putBe64 (getBe64 [a, b, c, d, e, f, g, h]) = [a, b, c, d, e, f, g, h] := by
+  simp only [getBe64, Nat.mod_eq_of_lt ha, Nat.mod_eq_of_lt hb, Nat.mod_eq_of_lt hc, Nat.mod_eq_of_lt hd,
+    Nat.mod_eq_of_lt he, Nat.mod_eq_of_lt hf, Nat.mod_eq_of_lt hg, Nat.mod_eq_of_lt hh]
+  generalize hu : (a * 16777216 + b * 65536 + c * 256 + d) * 4294967296 + (e * 16777216 + f * 65536 + g * 256 + h) = u
+  have hult : u < 2 ^ 64 := by omega
+  have hw : ((u : Nat) : Int) = wrapS 64 (u : Int) % 18446744073709551616 := by rw [wrapS64_eq]; split <;> omega
+  obtain ⟨b0, b8, b16, b24, b32, b40, b48, b56⟩ := byteAt_digits64 (wrapS 64 (u : Int)) u hw
+  rw [putBe64, b0, b8, b16, b24, b32, b40, b48, b56]
+  simp only [List.cons.injEq, and_true]
+  subst hu
+  refine ⟨?_, ?_, ?_, ?_, ?_, ?_, ?_, ?_⟩ <;> (show ((_ : Nat) = _); omega)
+
+/-- … and on 2-byte strings -/
+theorem put_get_be16 (a b : Nat) (ha : a < 256) (hb : b < 256) : putBe16 (getBe16 [a, b]) = [a, b] := by
+  obtain ⟨e0, e8, _, _⟩ := byteAt_eq (getBe16 [a, b])
+  rw [putBe16, e0, e8]
+  simp only [getBe16, Nat.mod_eq_of_lt ha, Nat.mod_eq_of_lt hb, wrapS16_eq, List.cons.injEq, and_true]
+  refine ⟨?_, ?_⟩ <;> (show ((_ : Nat) = _); split <;> split <;> omega)
+
+
+/-- bytes of a wrapped 32-bit value -/
+theorem byteAt_wrapS32 (u : Nat) (hu : u < 2 ^ 32) :
+    byteAt (wrapS 32 u) 24 = u / 16777216 % 256 ∧ byteAt (wrapS 32 u) 16 = u / 65536 % 256 ∧
+    byteAt (wrapS 32 u) 8 = u / 256 % 256 ∧ byteAt (wrapS 32 u) 0 = u % 256 := by
+  obtain ⟨e0, e8, e16, e24⟩ := byteAt_eq (wrapS 32 u)
+  rw [e0, e8, e16, e24, wrapS32_eq]
+  refine ⟨?_, ?_, ?_, ?_⟩ <;> (show ((_ : Nat) = _); split <;> omega)
+
+/-- get then put is the identity on 4-byte strings -/
+theorem put_get_be32 (a b c d : Nat) (ha : a < 256) (hb : b < 256) (hc : c < 256) (hd : d < 256) :
+    putBe32 (getBe32 [a, b, c, d]) = [a, b, c, d] := by
+  have hu : a * 16777216 + b * 65536 + c * 256 + d < 2 ^ 32 := by omega
+  have hg : getBe32 [a, b, c, d] = wrapS 32 ((a * 16777216 + b * 65536 + c * 256 + d : Nat) : Int) := by
+    simp only [getBe32, Nat.mod_eq_of_lt ha, Nat.mod_eq_of_lt hb, Nat.mod_eq_of_lt hc, Nat.mod_eq_of_lt hd]
+    push_cast; rfl
+  obtain ⟨b24, b16, b8, b0⟩ := byteAt_wrapS32 _ hu
+  rw [putBe32, hg, b24, b16, b8, b0]
+  simp only [List.cons.injEq, and_true]
+  refine ⟨?_, ?_, ?_, ?_⟩ <;> (show ((_ : Nat) = _); omega)
+
+
+/-! ## C20 lifted to whole buffers: the `replace_*` array paths equal the native paths on normal values -/
+
+theorem leBytes_ofLE : ∀ (l : List Nat), (∀ b ∈ l, b < 256) → leBytes l.length (ofLE l) = l
+  | [], _ => rfl
+  | b :: bs, h => by
+    have hb : b < 256 := h b (by simp)
+    have ih := leBytes_ofLE bs (fun x hx => h x (by simp [hx]))
+    simp only [List.length_cons, ofLE, leBytes]
+    have e1 : (b + 256 * ofLE bs) % 256 = b := by omega
+    have e2 : (b + 256 * ofLE bs) / 256 = ofLE bs := by omega
+    rw [e1, e2, ih]
+
+/-- the staging-buffer word of a big-endian file: byte-swapping the value gives the reversed byte string -/
+theorem leBytes_endswap32 (x : Nat) : leBytes 4 (endswap32 x) = beBytes 4 x := by
+  rw [← (endswap_reverses_bytes x).2]
+  have hl : ((leBytes 4 x).reverse).length = 4 := by simp [leBytes_length]
+  have := leBytes_ofLE (leBytes 4 x).reverse (fun b hb => leBytes_lt 4 x b (by simpa using hb))
+  rw [hl] at this
+  simpa [ofBE, beBytes] using this
+
+theorem ofLE_bytesLE_f32 (x : Nat) (hx : x < 2 ^ 32) : ofLE (Spec.bytesLE f32 x) = x := by
+  have : f32.width / 8 = 4 := by decide
+  rw [Spec.bytesLE, this, ofLE_leBytes]
+  exact Nat.mod_eq_of_lt (by norm_num; omega)
+
+/-- C20 lifted to whole buffers, write side: for a buffer of normal values `replace_write_f` (f2bf_array + endswap_int_array)
+    produces exactly the bytes of the native path, for both file byte orders -/
+theorem replace_write_native_f32 (fileBE : Bool) (xs : List Nat) (h : ∀ x ∈ xs, x < 2 ^ 32 ∧ Spec.isNormal f32 x = true) :
+    replaceWriteF32 fileBE xs = hostWrite f32 fileBE xs := by
+  unfold replaceWriteF32 hostWrite
+  induction xs with
+  | nil => rfl
+  | cons x xs ih =>
+    obtain ⟨hx, hn⟩ := h x (by simp)
+    simp only [List.flatMap_cons]
+    rw [ih (fun y hy => h y (by simp [hy]))]
+    congr 1
+    rw [(ieee_write_native_f32 x hx hn).2, ofLE_bytesLE_f32 x hx]
+    cases fileBE
+    · simp only [Bool.false_eq_true, if_false]; rfl
+    · simp only [if_true]; rw [leBytes_endswap32]; rfl
+
+/-- … and read side: reading the native bytes of a buffer of normal values through `replace_read_f` returns the buffer -/
+theorem replace_read_native_f32 (fileBE : Bool) (xs : List Nat) (h : ∀ x ∈ xs, x < 2 ^ 32 ∧ Spec.isNormal f32 x = true) :
+    replaceReadF32 fileBE (hostWrite f32 fileBE xs) = xs := by
+  unfold replaceReadF32 hostWrite
+  rw [groups_flatMap 4 (by omega)]
+  · rw [List.map_map]
+    conv => rhs; rw [← List.map_id xs]
+    apply List.map_congr_left
+    intro x hxm
+    obtain ⟨hx, hn⟩ := h x hxm
+    simp only [Function.comp, id]
+    have hw : f32.width / 8 = 4 := by decide
+    cases fileBE
+    · simp only [Bool.false_eq_true, if_false]
+      rw [ofLE_bytesLE_f32 x hx]
+      exact (ieee_read_native_f32 x hx hn).2
+    · simp only [if_true]
+      have e : ofLE (Spec.bytesBE f32 x) = endswap32 x := by
+        rw [Spec.bytesBE, hw, ← (endswap_reverses_bytes x).2]; rfl
+      rw [e, endswap32_involutive x hx]
+      exact (ieee_read_native_f32 x hx hn).2
+  · intro v _
+    have hw : f32.width / 8 = 4 := by decide
+    cases fileBE <;> simp [Spec.bytesBE, Spec.bytesLE, hw, leBytes_length, beBytes_length]
+
+
+theorem leBytes_endswap64 (x : Nat) (hx : x < 2 ^ 64) : leBytes 8 (endswap64 x) = beBytes 8 x := by
+  rw [← endswap64_reverses_bytes x hx]
+  have hl : ((leBytes 8 x).reverse).length = 8 := by simp [leBytes_length]
+  have := leBytes_ofLE (leBytes 8 x).reverse (fun b hb => leBytes_lt 8 x b (by simpa using hb))
+  rw [hl] at this
+  simpa [ofBE, beBytes] using this
+
+theorem ofLE_bytesLE_f64 (x : Nat) (hx : x < 2 ^ 64) : ofLE (Spec.bytesLE f64 x) = x := by
+  have : f64.width / 8 = 8 := by decide
+  rw [Spec.bytesLE, this, ofLE_leBytes]
+  exact Nat.mod_eq_of_lt (by norm_num; omega)
+
+/-- the same for `replace_write_d` / `replace_read_d` (double64.c) -/
+theorem replace_write_native_f64 (fileBE : Bool) (xs : List Nat) (h : ∀ x ∈ xs, x < 2 ^ 64 ∧ Spec.isNormal f64 x = true) :
+    replaceWriteF64 fileBE xs = hostWrite f64 fileBE xs := by
+  unfold replaceWriteF64 hostWrite
+  induction xs with
+  | nil => rfl
+  | cons x xs ih =>
+    obtain ⟨hx, hn⟩ := h x (by simp)
+    simp only [List.flatMap_cons]
+    rw [ih (fun y hy => h y (by simp [hy]))]
+    congr 1
+    rw [(ieee_write_native_f64 x hx hn).2, ofLE_bytesLE_f64 x hx]
+    cases fileBE
+    · simp only [Bool.false_eq_true, if_false]; rfl
+    · simp only [if_true]; rw [leBytes_endswap64 x hx]; rfl
+
+theorem replace_read_native_f64 (fileBE : Bool) (xs : List Nat) (h : ∀ x ∈ xs, x < 2 ^ 64 ∧ Spec.isNormal f64 x = true) :
+    replaceReadF64 fileBE (hostWrite f64 fileBE xs) = xs := by
+  unfold replaceReadF64 hostWrite
+  rw [groups_flatMap 8 (by omega)]
+  · rw [List.map_map]
+    conv => rhs; rw [← List.map_id xs]
+    apply List.map_congr_left
+    intro x hxm
+    obtain ⟨hx, hn⟩ := h x hxm
+    simp only [Function.comp, id]
+    have hw : f64.width / 8 = 8 := by decide
+    cases fileBE
+    · simp only [Bool.false_eq_true, if_false]
+      rw [ofLE_bytesLE_f64 x hx]
+      exact (ieee_read_native_f64 x hx hn).2
+    · simp only [if_true]
+      have e : ofLE (Spec.bytesBE f64 x) = endswap64 x := by
+        rw [Spec.bytesBE, hw, ← endswap64_reverses_bytes x hx]; rfl
+      rw [e, endswap64_involutive x hx]
+      exact (ieee_read_native_f64 x hx hn).2
+  · intro v _
+    have hw : f64.width / 8 = 8 := by decide
+    cases fileBE <;> simp [Spec.bytesBE, Spec.bytesLE, hw, leBytes_length, beBytes_length]
+
+/-- non-vacuity: a buffer of ordinary values, both file byte orders -/
+example : replaceWriteF32 true [0x3F800000, 0xC2F6E979] = [0x3F, 0x80, 0, 0, 0xC2, 0xF6, 0xE9, 0x79] ∧
+    replaceReadF32 false [0, 0, 0x80, 0x3F, 0x79, 0xE9, 0xF6, 0xC2] = [0x3F800000, 0xC2F6E979] ∧
+    hostWrite f32 false [0x3F800000] = [0, 0, 0x80, 0x3F] ∧
+    replaceReadF64 true [0x40, 0x09, 0x21, 0xFB, 0x54, 0x44, 0x2D, 0x18] = [0x400921FB54442D18] := by decide +kernel
 
 end Sf.C20Ieee
